@@ -236,8 +236,14 @@ Definition is_nz_const (w : Z) (p : expr) : bool :=
 Definition nonzero_in (w : Z) (st : sst) (p : expr) : bool :=
   is_nz_const w p || existsb (tv_same w p) (s_nz st).
 
+(** a state that claims the zero polynomial to be non-zero describes no concrete state: it marks
+    code that is unreachable (the exit of a loop without guard whose condition is provably non-zero
+    at its back edge) and entails everything *)
+Definition is_bot (st : sst) : bool := existsb (fun p => match p with [] => true | _ => false end) (s_nz st).
+
 Definition entails (w : Z) (st : sst) (f : facts) : bool :=
-  forallb (fun k => negb (match look k (f_c f) with Some _ => true | None => false end)) (f_d f)
+  is_bot st ||
+  (forallb (fun k => negb (match look k (f_c f) with Some _ => true | None => false end)) (f_d f)
   && forallb (fun k => memz k (f_d f)
                        || (agree w st k
                            && match look k (f_c f) with
@@ -248,7 +254,11 @@ Definition entails (w : Z) (st : sst) (f : facts) : bool :=
                         | Some p => subst_ok w st (snd tq) && tv_same w p (subst_st w st (snd tq))
                         | None => false
                         end) (f_t f)
-  && forallb (fun q => subst_ok w st q && nonzero_in w st (subst_st w st q)) (f_nz f).
+  && forallb (fun q => subst_ok w st q && nonzero_in w st (subst_st w st q)) (f_nz f)).
+
+(** state after a loop without guard: the loop is only left at its back edge with a zero condition *)
+Definition once_exit (w : Z) (stb : sst) (cond : Z) : sst :=
+  if nonzero_in w stb (cell_i stb cond) then add_nz stb [] else stb.
 
 (** after a pointer move nothing is known about the cells relative to the new pointer; the cells on
     which the tapes may differ move with it; temporaries keep constants only *)
@@ -330,7 +340,7 @@ Fixpoint tv_block (fuel : nat) (w : Z) (fuse : bool) (code : list binstr)
                               match after_move w code pc2 stb shift with
                               | Some (pc3, stb') =>
                                   if (pc3 =? back) && agree w stb' cond && entails w stb' inv
-                                  then tv_block fuel' w fuse code rest' (back + 1) stop (if once then stb' else fi) cs2
+                                  then tv_block fuel' w fuse code rest' (back + 1) stop (if once then once_exit w stb' cond else fi) cs2
                                   else None
                               | None => None
                               end
@@ -365,7 +375,10 @@ Fixpoint tv_block (fuel : nat) (w : Z) (fuse : bool) (code : list binstr)
       end
   end.
 
-Definition st0 : sst := {| s_ci := []; s_cb := []; s_d := []; s_t := []; s_nz := []; s_n := 0 |}.
+(** the tape starts all-zero: the initial state may list any cells as holding 0 (the caller chooses
+    which; every choice is sound) *)
+Definition st0 (zs : list Z) : sst :=
+  {| s_ci := map (fun k => (k, [])) zs; s_cb := map (fun k => (k, [])) zs; s_d := []; s_t := []; s_nz := []; s_n := 0 |}.
 
 Fixpoint tvsize (i : instr) : nat :=
   match i with
@@ -376,9 +389,9 @@ Definition isize (l : list instr) : nat := S (list_sum (map tvsize l)).
 
 (** the top-level block's final move is never executed by the IR interpreter; the bytecode may or
     may not contain it *)
-Definition tv_check (w : Z) (fuse : bool) (ir : block) (code : list binstr) (cs : list cert) : bool :=
+Definition tv_check (w : Z) (fuse : bool) (ir : block) (code : list binstr) (zs : list Z) (cs : list cert) : bool :=
   (0 <=? w) &&
-  match tv_block (S (isize (snd ir))) w fuse code (snd ir) 0 (Z.of_nat (length code)) st0 cs with
+  match tv_block (S (isize (snd ir))) w fuse code (snd ir) 0 (Z.of_nat (length code)) (st0 zs) cs with
   | Some (pc, _, []) =>
       (pc =? Z.of_nat (length code))
       || ((pc + 1 =? Z.of_nat (length code)) && match code_at code pc with Some (MovP _) => true | _ => false end)
